@@ -14,11 +14,15 @@ THEOREMS = [P + n for n in ("pick_perm", "pick_sorted", "pick_sublist", "sect_pu
            ["Rspirv.Props.C01Words." + n for n in ("str_words", "elem_words", "operand_words", "literal_words", "many_words",
                                                    "nested_words", "specOp_words", "one_words", "loop_words", "inst_words",
                                                    "packStr_words", "assemble_words", "opWords_agree", "instWords_agree",
-                                                   "parseInst_words")]
+                                                   "parseInst_words")] + \
+           ["Rspirv.Props.Reload." + n for n in ("load_canon", "step_cinv", "canon_of_load", "load_header", "C01_reload")] + \
+           ["Rspirv.Props.RoundTrip." + n for n in ("insts_asm", "assemble_load", "parse_header_form", "C01_reload_bytes",
+                                                    "grammarStreamB_sound")] + ["Rspirv.Props.C01End.C01_reload_scope"]
 NEEDS = ("header", "core", "glsl", "opencl", "traversals", "decode", "operand_enum", "asm_arms", "parse_operand", "operands",
          "operand_reflect", "disas_operand")
 SECTION = {"cap": 0, "ext": 1, "imp": 2, "mm": 3, "ep": 4, "em": 5, "dbg1": 6, "dbg2": 7, "dbg3": 8, "ann": 9, "tgv": 10}
 KNOWN_PARAM = "C01:function-parameter-after-label"
+KNOWN_WIDTH = "C01:reload-literal-width-late-type"
 
 
 def sec_index(tag):
@@ -116,7 +120,7 @@ def run(ctx):
         hok, herr = C.build_harness(ctx, bins=("impl",))
         have = C.need(ctx, *NEEDS)
         failing = C.prove(ctx, MODULE, THEOREMS, extra_targets=["driver"],
-                          files=["Rspirv/Props/C01.lean", "Rspirv/Props/C01Words.lean", "Rspirv/Props/C02.lean", "Rspirv/Model/Loader.lean", "Rspirv/Model/LoadBytes.lean",
+                          files=["Rspirv/Props/C01.lean", "Rspirv/Props/C01Words.lean", "Rspirv/Props/Reload.lean", "Rspirv/Props/RoundTrip.lean", "Rspirv/Props/C02.lean", "Rspirv/Model/Loader.lean", "Rspirv/Model/LoadBytes.lean",
                                  "Rspirv/Model/Assemble.lean", "Rspirv/Model/Module.lean"]) if have else []
     for n, e in failing:
         ctx.issue(f"theorem:{n}", f"Lean obligation no longer checks: {e['msg'][:300]}", witness=e)
@@ -196,6 +200,24 @@ def run(ctx):
         ctx.issue(f"oracle:reload:{r[:100]}", "loading the assembled output again does not reproduce it",
                   witness={"request": r, "first": a[:300], "second": b[:300]}, found_input=True, kind="oracle")
     ctx.oblige(f"oracle:reload ({len(again)} outputs loaded again)", not bad)
+    # scope of the reload theorem (C01_reload_scope): the driver evaluates its hypotheses on every accepted input; inside
+    # the scope the reload of the implementation's output must reproduce it
+    acc = [(r, a) for r, a in zip(reqs, impl) if a.startswith("ok ")]
+    acc = acc[:: max(1, len(acc) // (150 if ctx.tier == "quick" else 2000))]
+    hyp = C.run_driver(ctx, ["reloadhyp " + r.split(" ")[1] for r, _ in acc])
+    outs = ["loadasm " + instgen.to_bytes([int(x) for x in a[3:].split(",")]).hex() for _, a in acc]
+    re2 = C.run_impl(ctx, outs)
+    ctx.evaluations += len(acc)
+    in_scope = 0
+    for (r, a), hy, b in zip(acc, hyp, re2):
+        if hy == "ok grammar=1 words32=1":
+            in_scope += 1
+            if a != b:
+                ctx.issue(f"oracle:theorem-scope:{r[:100]}", "input inside the scope of C01_reload_scope but loading the output again gives something else",
+                          witness={"request": r, "first": a[:300], "second": b[:300], "hypotheses": hy}, found_input=True, kind="oracle")
+    ctx.oblige(f"oracle:theorem-scope ({in_scope} of {len(acc)} accepted inputs satisfy the hypotheses of C01_reload_scope; all reload unchanged)",
+               in_scope > len(acc) // 2 and not any(i.key.startswith("oracle:theorem-scope") for i in ctx.issues))
+    ctx.coverage["accepted_inputs_in_reload_theorem_scope"] = f"{in_scope}/{len(acc)}"
     # known finding probe (keyed; any other deviation of this probe is a violation of its own)
     a = C.run_impl(ctx, [late_req])[0]
     b = C.run_driver(ctx, [late_req])[0]
@@ -217,6 +239,38 @@ def run(ctx):
     if a != b:
         ctx.issue("correspondence:loadasm:late-parameter", "implementation and Lean model disagree on the late-parameter probe",
                   witness={"request": late_req, "implementation": a, "model": b}, found_input=True, kind="correspondence")
+    # second recorded finding: the width of OpSwitch case literals depends on the selector's type *as tracked so far*; a
+    # 64-bit integer type declared after the function (accepted) is assembled in front of it, and the output is then read
+    # with 64-bit literals. Keyed to this input; any other behaviour of the probe is a violation of its own.
+    lw = instgen.header(version=0x00010000, bound=10) + [
+        (5 << 16) | g.opv["Function"], 1, 3, 0, 4, (2 << 16) | g.opv["Label"], 6,
+        (3 << 16) | g.opv["Undef"], 2, 5, (5 << 16) | g.opv["Switch"], 5, 6, 1, 6,
+        (1 << 16) | g.opv["FunctionEnd"], (4 << 16) | g.opv["TypeInt"], 2, 64, 0]
+    lw_req = "loadasm " + instgen.to_bytes(lw).hex()
+    a1, b1 = C.run_impl(ctx, [lw_req])[0], C.run_driver(ctx, [lw_req])[0]
+    ctx.evaluations += 1
+    if a1 != b1:
+        ctx.issue("correspondence:loadasm:late-type", "implementation and Lean model disagree on the late-type probe",
+                  witness={"request": lw_req, "implementation": a1, "model": b1}, found_input=True, kind="correspondence")
+    want1 = lw[:5] + lw[-4:] + lw[5:-4]
+    want1[2] = 0x000f0000
+    if a1 != "ok " + ",".join(str(w) for w in want1):
+        ctx.issue("oracle:late-type:first-load", "unexpected output for the late-type probe",
+                  witness={"request": lw_req, "implementation": a1}, found_input=True, kind="oracle")
+    else:
+        again_req = "loadasm " + instgen.to_bytes(want1).hex()
+        a2, b2 = C.run_impl(ctx, [again_req])[0], C.run_driver(ctx, [again_req])[0]
+        ctx.evaluations += 1
+        if a2 != b2:
+            ctx.issue("correspondence:loadasm:late-type-reload", "implementation and Lean model disagree on the reload of the late-type probe",
+                      witness={"request": again_req, "implementation": a2, "model": b2}, found_input=True, kind="correspondence")
+        hy = C.run_driver(ctx, ["reloadhyp " + lw_req.split(" ")[1]])[0]
+        if a2 != a1 and hy != "ok grammar=0 words32=1":
+            ctx.issue("oracle:late-type:scope", "the late-type probe fails to reload although the model places it inside the scope of C01_reload_scope",
+                      witness={"request": lw_req, "hypotheses": hy}, found_input=True, kind="oracle")
+        if a2 != a1:
+            ctx.issue(KNOWN_WIDTH, "the assembled output of an accepted binary is rejected when loaded again (OpSwitch literal width follows a type that the input declared after the function)",
+                      witness={"request": lw_req, "first": a1, "reload_request": again_req, "second": a2}, found_input=True, kind="oracle")
     ctx.coverage["requests"] = stats
     ops = set()
     for r in reqs:
